@@ -8,10 +8,13 @@
      holdings  `<q>,<comm>,<lot commodity or empty>` joined by `;`
 
    px.recent  hist a b D               → ok  <secs>,<src>,<tgt>,<price> | ok none
-   px.value   V hist X:<tgt>|V D holdings → ok  <comm>=<num/den>;…   (summed per commodity, zero sums dropped)
+   px.value   V hist X:<tgt>|V D holdings → ok  <comm>=<num/den>;…   (summed per commodity, zero sums dropped;
+                                               X / V use ledger's route choice on any graph (`valueXG`), X0 / V0 the
+                                               forced-walk search `findPath` of Model/Prices.lean)
+   px.route   hist src tgt D            → ok  c0>c1>…>cn,<least recent secs> | ok none
    px.list    hist D c1,c2,…           → ok  <secs>,<src>,<tgt>,<price>;…  (in the model's order; compare as a multiset)
    A directive pricing a commodity in itself answers `err self-priced` (ledger refuses it). -/
-import LedgerModel.Model.Prices
+import LedgerModel.Model.PriceRoute
 import LedgerModel.Model.Calendar
 import LedgerModel.Model.Proto
 
@@ -107,9 +110,11 @@ def opValue (args : List String) : String :=
     match parseHist h, parseDateTime d, allSome ((splitList hs ";").map parseHolding) with
     | .ok hist, .ok D, some holds =>
       let V := splitList v ","
-      if mode = "V" then "ok\t" ++ balanceStr (valueBalance (valueV V hist D) holds)
+      if mode = "V" then "ok\t" ++ balanceStr (valueBalance (valueVG hist D) holds)
+      else if mode = "V0" then "ok\t" ++ balanceStr (valueBalance (valueV V hist D) holds)
       else match mode.splitOn ":" with
-        | ["X", tgt] => "ok\t" ++ balanceStr (valueBalance (valueX V hist D tgt) holds)
+        | ["X", tgt] => "ok\t" ++ balanceStr (valueBalance (valueXG hist D tgt) holds)
+        | ["X0", tgt] => "ok\t" ++ balanceStr (valueBalance (valueX V hist D tgt) holds)
         | _ => "err\tbad-op"
     | .error e, _, _ => "err\t" ++ e
     | _, .error e, _ => "err\t" ++ e
@@ -126,8 +131,24 @@ def opList (args : List String) : String :=
     | _, .error e => "err\t" ++ e
   | _ => "err\tbad-op"
 
+def opRoute (args : List String) : String :=
+  match args with
+  | [h, a, b, d] =>
+    match parseHist h, parseDateTime d with
+    | .ok hist, .ok D =>
+      match routeOf (fgraph hist D) D a b with
+      | some p =>
+        let lr := match leastRecent (feLookup (fgraph hist D)) p with
+          | some t => toString t
+          | none => "none"
+        "ok\t" ++ ">".intercalate p ++ "," ++ lr
+      | none => "ok\tnone"
+    | .error e, _ => "err\t" ++ e
+    | _, .error e => "err\t" ++ e
+  | _ => "err\tbad-op"
+
 def ops : List (String × (List String → String)) :=
-  [("px.recent", opRecent), ("px.value", opValue), ("px.list", opList)]
+  [("px.recent", opRecent), ("px.value", opValue), ("px.list", opList), ("px.route", opRoute)]
 
 end PricesProto
 end Ledger
